@@ -492,10 +492,15 @@ def oracle_C05(case, obs):
             comps = op.get("comps")
             for n_, (lw, j, dv) in enumerate(ev):
                 c = comps[n_] if comps else None
+                was_clean = vol[lw][j] == 0 and not amt[lw][j]
                 vol[lw][j] += dv
                 if c is None:
-                    if dv > 0:
+                    # untracked liquid into an empty well that never held a component: exactly "none of the named components"
+                    # (booked under a pseudo-component so that it travels with later transfers)
+                    if dv > 0 and not was_clean:
                         known[lw][j] = False
+                    elif dv > 0:
+                        amt[lw][j][UNTRACKED] = amt[lw][j].get(UNTRACKED, 0) + dv
                 else:
                     for name, f in c.items():
                         amt[lw][j][name] = amt[lw][j].get(name, 0) + Fraction(f) * dv
@@ -558,6 +563,9 @@ def move(amt, vol, known, ks, si, kd, di, v):
         known[kd][di] = False
 
 
+UNTRACKED = "\x00untracked"
+
+
 def cmp_comp(bad, name, comp, amt, vol, known, when):
     got = {}
     for c, ent in (comp or {}).items():
@@ -567,13 +575,14 @@ def cmp_comp(bad, name, comp, amt, vol, known, when):
         if vol[j] <= 0 or not known[j]:
             continue
         want = {c: a / vol[j] for c, a in amt[j].items() if a != 0}
+        untracked = want.pop(UNTRACKED, 0)
         g = got.get(j, {})
         for c in set(want) | set(g):
             # relative: a component present at 1e-10 is still a component (sums of positive terms: no cancellation in the code)
             if abs(want.get(c, 0) - g.get(c, 0)) > Fraction(1, 10 ** 14) + max(want.get(c, 0), g.get(c, 0)) / 10 ** 6:
                 bad.append(f"mixing: fraction of {c!r} in well {j} of {name} is {float(g.get(c, 0))} {when}, ideal mixing gives {float(want.get(c, 0))}")
                 return
-        if known[j] and want and abs(sum(g.values()) - 1) > Fraction(1, 10 ** 9):
+        if known[j] and (want or untracked) and abs(sum(g.values()) - (1 - untracked)) > Fraction(1, 10 ** 9):
             bad.append(f"sum: fractions in well {j} of {name} sum to {float(sum(g.values()))} {when}")
             return
 
@@ -840,8 +849,17 @@ def oracle_C01(case, obs):
             continue
         if k not in WL_OPS:
             break
+        clean_targets = None
         if k in ("dispense",):
-            comp_ok = False
+            # liquid of unknown origin: judged only when it goes into wells that are empty and never held a component
+            # (then "contains none of the named components" is an exact description on both sides, and later transfers of
+            # it must dilute the tracked fractions); otherwise the library's "more of what is there" has no physical reading
+            rk = robot.racks[L[op["lw"]]["name"]]
+            tw = [real_index(L[op["lw"]], w) for w in flatF(op["wells"]) if valid_well(L[op["lw"]], w)]
+            if op.get("comps") is None and lw_args_ok(case, op) and all(rk.vol[j] == 0 and not rk.amt[j] and rk.known[j] for j in tw):
+                clean_targets = (rk, tw)
+            else:
+                comp_ok = False
         if k == "aspirate":
             # a stand-alone aspirate does not change compositions, but a volume with more than two decimals is rounded in
             # the record, so the replayed volumes (hence later fractions) are only close to the tracked ones, not equal
@@ -889,6 +907,9 @@ def oracle_C01(case, obs):
         except gwl.GwlError as e:
             bad.append(f"replay: call {i} ({k}): {e}")
             break
+        if clean_targets is not None:
+            for j in clean_targets[1]:
+                clean_targets[0].known[j] = True
         for kk in range(len(L)):
             rack = robot.racks[L[kk]["name"]]
             tracked = vols_of(st, kk)
